@@ -129,7 +129,7 @@ def gen_project(r, impl, legacy=False, max_files=5, allow_mixed=True, n_files=No
         if r.random() < 0.15:
             fs.entry_repeated = True
         files.append(fs)
-    return dict(vp=vp, flags=list(flags), old=old, files=files, date=d, legacy=legacy, cfg_prefix=r.choice(CFG_PREFIXES), key_comment=r.random() < 0.25)
+    return dict(vp=vp, flags=list(flags), old=old, files=files, date=d, legacy=legacy, cfg_prefix=r.choice(CFG_PREFIXES), key_comment=r.random() < 0.25, dot_slash=r.random() < 0.5)
 
 
 def to_temp_project(project, spec, **kw):
@@ -143,7 +143,8 @@ def to_temp_project(project, spec, **kw):
             stem, ext = os.path.splitext(base)
             fs.glob = d + "/" + stem + "*" + ext
             files[fs.glob] = list(fs.patterns[:1])
-            files[fs.path] = list(fs.patterns[1:])
+            # the explicit entry may spell the same file differently (leading "./")
+            files[("./" + fs.path) if spec.get("dot_slash") else fs.path] = list(fs.patterns[1:])
         else:
             files[fs.path] = list(fs.patterns)
     kw.setdefault("cfg_prefix", spec.get("cfg_prefix", "").format(q='"'))
